@@ -77,18 +77,18 @@ Print Assumptions C05_object_item_as_string.
 (* exactly once iff enabled: member i of the sequence gets the record once iff (sv >= minimum and the filter accepts) *)
 Theorem C05_sink_exactly_once_iff_enabled : forall cfg th lg sv tag its i,
   count (is_sink_of i) (exec_one cfg th lg sv tag its)
-  = if enabled (c_min cfg) th lg sv && (i <? lg_sinks lg) then 1 else 0.
+  = if enabled (c_min cfg) th lg sv tag && (i <? lg_sinks lg) then 1 else 0.
 Proof. exact one_sink_exactly_once. Qed.
 Print Assumptions C05_sink_exactly_once_iff_enabled.
 
 Theorem C05_format_exactly_once_iff_enabled : forall cfg th lg sv tag its,
-  count is_format (exec_one cfg th lg sv tag its) = if enabled (c_min cfg) th lg sv then 1 else 0.
+  count is_format (exec_one cfg th lg sv tag its) = if enabled (c_min cfg) th lg sv tag then 1 else 0.
 Proof. exact one_format_exactly_once. Qed.
 Print Assumptions C05_format_exactly_once_iff_enabled.
 
 (* a sequence sink forwards once to each member, in declaration order *)
 Theorem C05_sequence_in_declaration_order : forall cfg th lg sv tag its,
-  sink_members (exec_one cfg th lg sv tag its) = if enabled (c_min cfg) th lg sv then seq 0 (lg_sinks lg) else [].
+  sink_members (exec_one cfg th lg sv tag its) = if enabled (c_min cfg) th lg sv tag then seq 0 (lg_sinks lg) else [].
 Proof. exact one_sink_order. Qed.
 Print Assumptions C05_sequence_in_declaration_order.
 
@@ -179,7 +179,7 @@ Proof. exact run_arrivals. Qed.
 Print Assumptions C05_arrivals_in_program_order.
 
 (* the filter combinators are the boolean connectives over "threshold k <= severity" *)
-Theorem C05_filter_is_formula : forall th f r, filt th f r = holds th f (r_sev r).
+Theorem C05_filter_is_formula : forall th f r, filt th f r = holds th f (r_sev r) (r_tag r).
 Proof. exact filt_holds. Qed.
 Print Assumptions C05_filter_is_formula.
 
@@ -207,6 +207,19 @@ Print Assumptions C05_filter_consulted_at_construction.
 Theorem C05_number_text_denotes : forall n, dec_value (dec_of_N n) = n.
 Proof. exact dec_of_N_value. Qed.
 Print Assumptions C05_number_text_denotes.
+
+(* the filter expression decides about the record that is delivered: enabled = the gate is open and the filter code accepts
+   the record carrying the statement's severity AND ITS TAG (a user-written filter may read the tag) *)
+Theorem C05_enabled_iff_filter_accepts_delivered_record : forall min th lg sv tag its,
+  enabled min th lg sv tag = gate_open min sv && filt (th (lg_rec lg)) (lg_filter lg) (delivered lg sv tag its).
+Proof. exact enabled_iff_filter_accepts_delivered. Qed.
+Print Assumptions C05_enabled_iff_filter_accepts_delivered_record.
+
+(* a tower of n not_filters over ANY filter (threshold, null, tag filter, compound) negates iff n is odd *)
+Theorem C05_not_tower : forall th f r n,
+  filt th (Nat.iter n FNot f) r = if Nat.even n then filt th f r else negb (filt th f r).
+Proof. exact filt_not_tower. Qed.
+Print Assumptions C05_not_tower.
 
 (* non-vacuity: concrete instances *)
 Module Examples.
@@ -241,6 +254,20 @@ Example C05_ex_nested :
   exec_one cfg_info init_thresholds (mkLogger 0 true FNull (SSeq [SSeq [SLeaf MByValue; SLeaf MConstRef]; SLeaf MRvalue])) Warn None [IStr (B "n")]
   = [Format (mkRecord Warn (B "") (B "n")); Sink 0 Warn (B "3||n"); Sink 1 Warn (B "3||n"); Sink 2 Warn (B "3||n")].
 Proof. reflexivity. Qed.
-Example C05_ex_enabled_hyp : enabled Info th_dw lg_band Warn = true.
+Example C05_ex_enabled_hyp : enabled Info th_dw lg_band Warn None = true.
+Proof. reflexivity. Qed.
+(* a filter that mutes the tag "noisy": the tagged statement is dropped, the untagged one and another tag pass;
+   asked about the record WITHOUT its tag the filter would have accepted *)
+Definition lg_mute := mkLogger 0 true (FAnd (FThr 0) (FTag false (B "noisy"))) (flat_sinks 1).
+Example C05_ex_tag_muted :
+  exec_one cfg_info init_thresholds lg_mute Error (Some (B "noisy")) [ICall KLambda 1 (B "x")] = []
+  /\ exec_one cfg_info init_thresholds lg_mute Error (Some (B "calm")) [ICall KLambda 1 (B "x")]
+     = [Call 1; Format (mkRecord Error (B "calm") (B "x")); Sink 0 Error (B "4|calm|x")]
+  /\ filt (init_thresholds 0) (lg_filter lg_mute) (mkRecord Error (B "") (B "")) = true
+  /\ filt (init_thresholds 0) (lg_filter lg_mute) (mkRecord Error (B "noisy") (B "")) = false.
+Proof. repeat split; reflexivity. Qed.
+Example C05_ex_not_tower :
+  map (fun n => filt (init_thresholds 0) (Nat.iter n FNot (FTag true (B "tg"))) (mkRecord Warn (B "tg") (B ""))) [0; 1; 2; 3]
+  = [true; false; true; false].
 Proof. reflexivity. Qed.
 End Examples.
